@@ -542,6 +542,8 @@ def _lift(o):
     """Python/NumPy number or Sym -> SR or SC (None if not a number)"""
     if isinstance(o, (SR, SC)):
         return o
+    if isinstance(o, SI):
+        return SR(z3.ToReal(o.e))
     if isinstance(o, (bool, np.bool_, int, np.integer, float, np.floating, Fraction)):
         return SR(q(o))
     if isinstance(o, (complex, np.complexfloating)):
@@ -1062,6 +1064,11 @@ class SR(_Base, numbers.Real):
 
 def ite(cond, a, b):
     """symbolic if-then-else on scalars (no fork)"""
+    if isinstance(a, SI) or isinstance(b, SI):
+        ea, eb = SI._o(a), SI._o(b)
+        if ea is not None and eb is not None:
+            ce = cond.e if isinstance(cond, SB) else z3.BoolVal(bool(cond))
+            return SI(z3.If(ce, ea, eb))
     a, b = _lift(a), _lift(b)
     ce = cond.e if isinstance(cond, SB) else z3.BoolVal(bool(cond))
     if isinstance(a, SC) or isinstance(b, SC):
@@ -1072,6 +1079,193 @@ def ite(cond, a, b):
     if _same(a.d, b.d):
         return SR(z3.If(ce, a.n, b.n), a.d)
     return SR(z3.If(ce, a.e, b.e))
+
+
+class SI(_Base, numbers.Integral):
+    """symbolic integer scalar (z3 Int sort): index arithmetic with Python/JAX semantics"""
+    __slots__ = ("e",)
+    dtype = np.dtype(object)
+    is_int = True
+
+    def __init__(self, e):
+        self.e = e if isinstance(e, z3.ArithRef) else z3.IntVal(int(e))
+
+    @staticmethod
+    def _o(o):
+        if isinstance(o, SI):
+            return o.e
+        if isinstance(o, (bool, np.bool_)):
+            return z3.IntVal(int(o))
+        if isinstance(o, (int, np.integer)):
+            return z3.IntVal(int(o))
+        if isinstance(o, SB):
+            return z3.If(o.e, z3.IntVal(1), z3.IntVal(0))
+        return None
+
+    def _real(self):
+        return SR(z3.ToReal(self.e))
+
+    def _bin(self, o, f, rf=None):
+        e = SI._o(o)
+        if e is not None:
+            return SI(f(self.e, e))
+        l = _lift(o)
+        if l is None:
+            return NotImplemented
+        return rf(self._real(), l)
+
+    def __add__(self, o):
+        return self._bin(o, lambda a, b: a + b, lambda a, b: a + b)
+
+    __radd__ = __add__
+
+    def __sub__(self, o):
+        return self._bin(o, lambda a, b: a - b, lambda a, b: a - b)
+
+    def __rsub__(self, o):
+        return self._bin(o, lambda a, b: b - a, lambda a, b: b - a)
+
+    def __mul__(self, o):
+        return self._bin(o, lambda a, b: a * b, lambda a, b: a * b)
+
+    __rmul__ = __mul__
+
+    def __neg__(self):
+        return SI(-self.e)
+
+    def __pos__(self):
+        return self
+
+    def __abs__(self):
+        return SI(z3.If(self.e >= 0, self.e, -self.e))
+
+    def __truediv__(self, o):
+        return self._real() / (o._real() if isinstance(o, SI) else o)
+
+    def __rtruediv__(self, o):
+        return _lift(o) / self._real()
+
+    # Python semantics: floor division and non-negative remainder for positive divisors (z3's div/mod are Euclidean)
+    def __floordiv__(self, o):
+        e = SI._o(o)
+        if e is None:
+            raise TypeError("symbolic floordiv by a non-integer")
+        cur().need(e != 0)
+        return SI(z3.If(e > 0, self.e / e, (-self.e) / (-e)))
+
+    def __rfloordiv__(self, o):
+        return SI(SI._o(o)) // self
+
+    def __mod__(self, o):
+        e = SI._o(o)
+        if e is None:
+            raise TypeError("symbolic mod by a non-integer")
+        cur().need(e != 0)
+        return SI(z3.If(e > 0, self.e % e, -((-self.e) % (-e))))
+
+    def __rmod__(self, o):
+        return SI(SI._o(o)) % self
+
+    def trunc_div(self, o):
+        """C / XLA semantics: rounds toward zero"""
+        e = SI._o(o)
+        cur().need(e != 0)
+        a, b = self.e, e
+        q_ = z3.If(a >= 0, z3.If(b > 0, a / b, -(a / (-b))), z3.If(b > 0, -((-a) / b), (-a) / (-b)))
+        return SI(q_)
+
+    def trunc_rem(self, o):
+        e = SI._o(o)
+        return SI(self.e - e * self.trunc_div(o).e)
+
+    def __pow__(self, n, mod=None):
+        if isinstance(n, (int, np.integer)) and n >= 0:
+            r = SI(1)
+            for _ in range(int(n)):
+                r = r * self
+            return r
+        return self._real() ** n
+
+    def _cmp(self, o, op):
+        e = SI._o(o)
+        if e is not None:
+            return SB(op(self.e, e))
+        l = _lift(o)
+        if l is None:
+            return NotImplemented
+        return op(self._real(), l)
+
+    def __lt__(self, o):
+        return self._cmp(o, lambda a, b: a < b)
+
+    def __le__(self, o):
+        return self._cmp(o, lambda a, b: a <= b)
+
+    def __gt__(self, o):
+        return self._cmp(o, lambda a, b: a > b)
+
+    def __ge__(self, o):
+        return self._cmp(o, lambda a, b: a >= b)
+
+    def __eq__(self, o):
+        return self._cmp(o, lambda a, b: a == b)
+
+    def __ne__(self, o):
+        r = self.__eq__(o)
+        return r if r is NotImplemented else ~r
+
+    def __bool__(self):
+        return bool(self != 0)
+
+    def __int__(self):
+        e = simp(self.e)
+        if z3.is_int_value(e):
+            return e.as_long()
+        raise TypeError("symbolic integer realised (int)")
+
+    __index__ = __int__
+
+    def __float__(self):
+        return float(int(self))
+
+    def __repr__(self):
+        return f"SI({simp(self.e)})"
+
+    def sign(self):
+        return SI(z3.If(self.e > 0, z3.IntVal(1), z3.If(self.e < 0, z3.IntVal(-1), z3.IntVal(0))))
+
+    def maximum(self, o):
+        e = SI._o(o)
+        return SI(z3.If(self.e >= e, self.e, e)) if e is not None else self._real().maximum(o)
+
+    def minimum(self, o):
+        e = SI._o(o)
+        return SI(z3.If(self.e <= e, self.e, e)) if e is not None else self._real().minimum(o)
+
+    # unused abstract methods of numbers.Integral
+    def __and__(self, o): raise TypeError("bit operation on a symbolic integer")
+    __rand__ = __or__ = __ror__ = __xor__ = __rxor__ = __lshift__ = __rlshift__ = __rshift__ = __rrshift__ = __and__
+
+    def __invert__(self): raise TypeError("bit operation on a symbolic integer")
+
+    def __rpow__(self, o): raise TypeError("symbolic exponent")
+
+    def __trunc__(self): return int(self)
+
+    def __floor__(self): return int(self)
+
+    def __ceil__(self): return int(self)
+
+    def __round__(self, n=None): return self
+
+
+def ints(name, shape=()):
+    if shape == ():
+        return SI(z3.Int(name))
+    a = np.empty(shape, dtype=object)
+    for idx in np.ndindex(*shape):
+        a[idx] = SI(z3.Int(name + "_" + "_".join(map(str, idx))))
+    return a.view(SymArr)
 
 
 class SC(_Base, numbers.Complex):
